@@ -45,6 +45,8 @@ class ROp:
 
 
 def _eq(ret, a, b, bits):
+    if bits == "feq":
+        return ("SPEC_FEQ32(%s, %s)" if ret == "F32" else "SPEC_FEQ64(%s, %s)") % (a, b)
     if ret == "F32" and bits:
         return "(vh_f32bits(%s) == vh_f32bits(%s))" % (a, b)
     if ret == "F64" and bits:
